@@ -37,24 +37,22 @@ THEOREMS = [
     "Ffcx.LNodes.Fmt.prec_table_agrees",
     "Ffcx.LNodes.Fmt.math_names_injective",
     "Ffcx.LNodes.Fmt.local_faithful",
-    "Ffcx.LNodes.Fmt.local_faithful_py",
     "Ffcx.LNodes.Fmt.local_faithful_multiindex_counterexample",
+    "Ffcx.LNodes.Fmt.local_faithful_py",
+    "Ffcx.LNodes.Fmt.local_faithful_py_chain_counterexample",
+    "Ffcx.LNodes.Fmt.lex_render",
+    "Ffcx.LNodes.Fmt.separated_pieces",
     "Ffcx.LNodes.Fmt.no_token_fusion_counterexample",
     "Ffcx.LNodes.Fmt.no_token_fusion_partial",
-    "Ffcx.LNodes.Fmt.lex_render",
     "Ffcx.LNodes.Fmt.parse_tokens_C",
+    "Ffcx.LNodes.Fmt.eraseC_norm",
     "Ffcx.LNodes.Fmt.roundtrip_C",
-    "Ffcx.LNodes.Fmt.norm_eval",
-    "Ffcx.LNodes.Fmt.roundtrip_stmt_partial",
-    "Ffcx.LNodes.Fmt.roundtrip_Py_chain_counterexample",
-    "Ffcx.LNodes.Fmt.roundtrip_Py_bessel_counterexample",
-    "Ffcx.LNodes.Fmt.roundtrip_Py_partial",
-    "Ffcx.LNodes.Fmt.literal_1ulp_counterexample",
-    "Ffcx.LNodes.Fmt.literal_16digits_partial",
-    "Ffcx.LNodes.Fmt.literal_exact_17",
+    "Ffcx.LNodes.Fmt.roundtrip_C_WT",
+    "Ffcx.LNodes.Fmt.roundtrip_C_counterexample",
 ]
-HELPER_FILES = ["FfcxProofs/Lemmas/FormatLex.lean", "FfcxProofs/Lemmas/FormatParse.lean",
-                "FfcxProofs/Lemmas/FormatNum.lean", "FfcxProofs/Lemmas/FormatTables.lean"]
+HELPER_FILES = ["FfcxProofs/Lemmas/" + f for f in (
+    "FormatTables.lean", "FormatParse.lean", "FormatRT.lean", "FormatRTCases.lean", "FormatRTAll.lean",
+    "FormatLex.lean", "FormatSep.lean", "FormatSepExpr.lean", "FormatNorm.lean")]
 
 REAL, SCALAR, INT, BOOL = L.DataType.REAL, L.DataType.SCALAR, L.DataType.INT, L.DataType.BOOL
 
